@@ -47,6 +47,10 @@ pub const CORPUS: &[&str] = &[
     "import m0, m1, m2, m3, m4, m5, m6, m7, m8, m9\nq = a.b.c.d.e.f.g.h.i.j\nr = a + b + c + d + e + f + g + h + i + j\n",    "if x: pass\nprint(1)\nmatch = 3\ntype = match\nwhile y: break\n",
     "with open(p) as f: pass\nz = a not in b\nw = a is not b\nexec(print)\n",
     "def f():\n    return (1,\n",
+    // compound-statement headers at the very end of the text, no final newline: the body is an empty, zero-width `block`
+    "if x:",
+    "x = 1\nclass A:",
+    "while c:",
 ];
 
 /// sources full of ALIASED nodes (the grammar gives them another name than the rule that produced them): one-line suites
